@@ -7,3 +7,7 @@ package verifhook
 func JoinRecv(join interface{}, side int, ok bool, metadata bool, isErr bool) {}
 
 func Side(leftDone bool) int { return 0 }
+
+func JSONWorker(firstLine int, lines int) {}
+
+func JSONReader(firstLine int, lines int) {}
